@@ -166,6 +166,33 @@ def real_round_trips(seed, count):
         dv = (S.volume_from_radius(r + h, dim) - S.volume_from_radius(r - h, dim)) / (2 * h)
         if abs(dv - S.surface_from_radius(r, dim)) > 1e-6 * abs(dv):
             fails.append("surface is not the derivative of the volume")
+        # arrays that mix vanished droplets (0) with ordinary ones: element by element the scalar results
+        arr = np.array([0.0, v, 0.0, 8 * v, v / 7])
+        ra = S.radius_from_volume(arr, dim)
+        if not np.all(np.isfinite(ra)) or ra[0] != 0 or ra[2] != 0 or \
+                any(abs(ra[i] - S.radius_from_volume(float(arr[i]), dim)) > 1e-14 * r * 3 for i in (1, 3, 4)):
+            fails.append("radius_from_volume of an array containing zeros differs from the scalar results")
+        va = S.volume_from_radius(np.array([0.0, r, 2 * r, 0.0]), dim)
+        if not np.all(np.isfinite(va)) or va[0] != 0 or va[3] != 0 or abs(va[1] - v) > 1e-14 * v:
+            fails.append("volume_from_radius of an array containing zeros differs from the scalar results")
+        if dim > 1:
+            sa = S.surface_from_radius(np.array([0.0, r, 0.0]), dim)
+            rs = S.radius_from_surface(np.array([0.0, float(sa[1]), 0.0]), dim)
+            if not np.all(np.isfinite(sa)) or sa[0] != 0 or not np.all(np.isfinite(rs)) or rs[0] != 0 or abs(rs[1] - r) > 1e-14 * r:
+                fails.append("surface conversions of an array containing zeros differ from the scalar results")
+        if dim == 2:
+            # 2-D perturbed droplets with an odd and an even number of amplitudes: volume setter and getter agree
+            from droplets.droplets import PerturbedDroplet2D
+
+            for na in (1, 2, 3, 5):
+                import warnings as _w
+
+                with _w.catch_warnings():
+                    _w.simplefilter("ignore")
+                    pd = PerturbedDroplet2D(rng.uniform(-5, 5, 2), r, None, rng.uniform(-0.2, 0.2, na))
+                pd.volume = 1.75 * v
+                if abs(pd.volume - 1.75 * v) > 1e-13 * v:
+                    fails.append(f"perturbed 2-D droplet with {na} amplitudes: setting the volume and reading it back")
         pos = rng.uniform(-5, 5, dim)
         for cls in (SphericalDroplet, DiffuseDroplet):
             z = cls(pos, 0.0)      # a vanished droplet can be given a volume again
